@@ -8,6 +8,9 @@ NOT_APPLICABLE = {}
 
 
 def reg(pid, engine, technique, text, note, design):
+    text = text + (' The families, routes and histories were extended after the rounds of seeded changes (larger networks and counts, '
+                   'values of extreme magnitude, rejected edits interleaved with valid ones, re-used objects); DESIGN.md sections 4 and 4b '
+                   'list them and the evidence file states what a run covered.')
     CHECKS[pid] = dict(engine=engine, technique=technique, text=text, note=note, design=design)
 
 
@@ -30,7 +33,7 @@ E1_NOTE = ('Trusted: the reference sampler in vf/ref/ssa.py (inverse-transform d
 reg('C05', 'E1',
     'stateless cost-bounded exploration of the scripted random stream; every reference trace replayed on the real SSASimulator',
     'The random stream is the only nondeterminism: with hook H1 the simulator is a deterministic function of a finite choice '
-    'sequence. For 13 finite-state networks (all propensity types, orders 0..3, repeated reactants, catalysis, a zero-propensity '
+    'sequence. For 15 small finite-state networks, six larger ones (counts 50-200, seven species, ten channels) and three with rates of magnitude 1e-11 / 1e9 (all propensity types, orders 0..3, repeated reactants, catalysis, a zero-propensity '
     'channel between live ones) x grids (uniform / non-uniform) x plain/safe interface, every execution of the reference '
     'direct-method sampler whose letters cost at most the bound (cells of each waiting-time draw relative to now / next grid time / '
     'horizon, middle and both edges of every live reaction bucket) is replayed on the implementation, comparing every row and the '
@@ -60,7 +63,7 @@ reg('C11', 'E1+E2',
     'Growth and division: StochasticTimeThresholdVolume / StateDependentVolume x cycle times x scripted division noise x grid steps x '
     'models without reactions, with reactions, and going extinct mid-run: every trace replayed, and the real output checked against '
     'the growth law itself (positive, monotone, within one step, ends flagged at the first grid time of division).',
-    E1_NOTE + ' Division reported exactly at the last grid time is not claimed either way.', '4 C11')
+    E1_NOTE + ' A division that falls exactly on the last grid time is claimed as well (since fix 88517e5).', '4 C11')
 
 reg('C09', 'E1+E2',
     'cost-bounded exploration of the scripted stream on rule-carrying models in every mode; rule invariants on the real rows',
@@ -74,7 +77,7 @@ reg('C09', 'E1+E2',
 reg('C20', 'E3',
     'explicit-state breadth-first search over operation histories on the real ArrayDelayQueue with a lock-step reference queue',
     'All histories up to the length bound over add (requested time before / on / 0.3 dt around every slot / beyond the horizon), '
-    'read-and-advance, copy, clear_copy and binomial_partition with every coin sequence, for all 54 queue shapes and start times, are '
+    'read-and-advance, copy, clear_copy and binomial_partition with every coin sequence, for all 54 queue shapes and start times of the stated family plus larger ones (more reactions than slots, up to 9 slots), set_current_time on queues with pending entries, requested times 2^32 slots ahead and infinite, and partitions of slots holding up to 1000 occurrences, are '
     'executed on the real queue; after every transition the queue is drained and compared slot by slot (content and slot times) with a '
     'dict-based reference, so exactly-once delivery at the nearest slot, ordering, clamping, copy independence and partition conservation '
     'are decided for every reachable state within the bounds. States are merged only on (pending counts per relative slot, ring position).',
@@ -83,7 +86,7 @@ reg('C20', 'E3',
 reg('C07', 'E3',
     'exhaustive enumeration of the option lattice of py_simulate_model on the real entry point',
     'The full product {stochastic} x {delay None/False/True} x {safe} x {volume: False, True, number, Volume object, initialised growing '
-    'volume, dividing volume} x {data frame, result object} x {Model, pre-built interface} x 4 models x grid lengths is called on the '
+    'volume, dividing volume} x {data frame, result object} x {Model, pre-built interface} x 10 models x grid lengths is called on the '
     'real entry point; each outcome is either a complete, correctly labelled result (time axis, species columns in model order, volume '
     'column, first row = initial condition with rules) or an explicit option error. The lattice is finite and enumerated completely.',
     'Trusted: the oracle\'s notion of an explicit option error (ValueError/TypeError naming an option). Values inside the result are not '
@@ -164,12 +167,12 @@ reg('C14', 'E2',
 
 reg('C08', 'E3',
     'exhaustive enumeration of operation histories on the real Model with a shadow definition; differential oracle vs a freshly built model',
-    'Every sequence up to the length bound over a 19-letter alphabet of edits, initialisations, interface constructions, simulations in '
+    'Every sequence up to the length bound over a 27-letter alphabet of edits (two of them rejected ones), initialisations, interface constructions, simulations in '
     'every mode and seedings is applied to a real Model; the state reached is compared, through seeded and scripted simulations in every '
     'mode, the deterministic trajectory, dictionaries and matrices, with a model built at once from the shadow definition; seeded '
     'repetition and model-unchanged-by-simulation are checked at every step. Histories are not merged because the hidden C-level vectors '
     'are what is under test.',
-    'Trusted: the shadow definition kept by the harness. Bounded by history length (3 quick, 4 + a length-5 sub-alphabet thorough).', '4 C08')
+    'Trusted: the shadow definition kept by the harness. Bounded by history length (3 quick, 4 thorough, plus lengths 4-7 over sub-alphabets).', '4 C08')
 reg('C17', 'E2+E3',
     'bounded-exhaustive enumeration of member types x copy/initialise/simulate/edit histories on real models, results and cell states',
     'One model per propensity / expression-node / delay / rule type and per lineage rule / event / splitter type is taken through every '
